@@ -36,7 +36,7 @@ SALS = [9, 7, 7, 5, 3, 0, 0, -2, -5]
 KIND_FLAGS = {"plain": (False, False), "ret": (False, True), "bare": (False, True),
               "fail": (True, False), "retfail": (True, False),
               "panic1": (True, False), "panic2": (True, False), "loop": (True, False),
-              "brk": (True, False), "cont": (True, False)}
+              "brk": (True, False), "cont": (True, False), "retpriv": (True, False)}
 
 
 def mk_rules(rng, k, kinds=("plain", "ret", "fail"), weights=(3, 3, 2), stop_p=0.0, distinct_sal=False):
@@ -103,6 +103,24 @@ def rand_case(rng, entry, kinds=("plain", "ret", "fail"), weights=(3, 3, 2), max
         c["layers"] = rand_layers(rng, rules)
     if entry in CONCURRENT and rules and rng.random() < 0.8:
         c["hold"] = rng.choice(rules)["name"]
+    if len(rules) >= 2 and rng.random() < 0.15:
+        # the same rule set reached through a HISTORY on the builder the call uses — an older variant of the set, then an
+        # incremental build (changed kinds / versions, added rules) — with the entry point executed once on the same engine
+        # before the last operation ("warm"): whatever the engine or the builder remembers from that earlier call must not matter
+        old = []
+        for r in rules:
+            x = rng.random()
+            if x < 0.3:
+                continue                                    # not there yet: the incremental build adds it
+            if x < 0.6:
+                old.append(dict(r, kind=rng.choice(kinds), ver=r["ver"] + 500))   # an older body, replaced later
+            else:
+                old.append(dict(r))
+        if old:
+            newer = [dict(r) for r in rules if not any(o == r for o in old)]
+            if newer:
+                c["history"] = [{"kind": "full", "rules": old}, {"kind": "incr", "rules": newer}]
+                c["warm"] = True
     return c
 
 
